@@ -73,13 +73,28 @@ pub fn run(rep: &Report) -> Value {
             outcomes.insert(key.join("|"));
         }
     }
+    // long sequential run: references stay distinct over millions of calls (no masked or dropped bits)
+    let n_seq: u64 = if rep.thorough() { 40_000_000 } else { 3_000_000 };
+    {
+        let node = Node::new("me@127.0.0.1", "c");
+        let mut seen: HashSet<Vec<u32>> = HashSet::with_capacity(n_seq as usize);
+        for i in 0..n_seq {
+            let r = node.make_reference();
+            if r.creation != node.creation() { rep.violation("reference carries a creation other than the node's", json!({"index": i})); break; }
+            if !seen.insert(r.ids.clone()) {
+                rep.violation("a reference was issued twice by sequential calls", json!({"index": i, "ids": r.ids}));
+                break;
+            }
+        }
+    }
     json!({
+        "sequential_references": n_seq,
         "states": total,
         "transitions": total * 3,
         "traces_validated_against_impl": total,
         "samples": [{"threads": 2, "schedule": [0, 1, 0, 1, 1, 0]}, {"threads": 3, "schedule": [2, 0, 1, 1, 0, 2, 2, 1, 0]}],
         "exhaustive": true,
         "distinct_outcomes": outcomes.len(),
-        "rule": "all interleavings of the three fetch_add segments of Node::make_reference for 2 threads (20 schedules) and 3 threads (1680 schedules), enforced by a baton passed at the sync_point hooks; references must be pairwise distinct and carry the node's creation",
+        "rule": "all interleavings of the three fetch_add segments of Node::make_reference for 2 threads (20 schedules) and 3 threads (1680 schedules), enforced by a baton passed at the sync_point hooks; references must be pairwise distinct and carry the node's creation; plus one sequential history of 3 (40) million references, all distinct",
     })
 }
